@@ -79,13 +79,21 @@ func elemFns() []elemFn {
 	return fns
 }
 
-var funcGrid = []float64{-3, -2, -1.5, -1.25, -0.75, -0.5, -0.25, -0.1, 0.1, 0.25, 0.5, 0.75, 1.25, 1.5, 2, 3}
+// funcGrid: every multiple of 1/8 in [-3,3] (the domain predicate of each function removes its
+// singular points) plus a few non-dyadic values.
+var funcGrid = func() []float64 {
+	var g []float64
+	for k := -24; k <= 24; k++ {
+		g = append(g, float64(k)/8)
+	}
+	return append(g, -0.1, 0.1, 0.3, -0.7, 1.1, 2.2, -2.9)
+}()
 
 var specialReals = []float64{0, math.Copysign(0, -1), 1, -1, math.Inf(1), math.Inf(-1), math.NaN()}
 
 // dual seeds: (e) and (e1, e2, e12) are chosen pairwise different so that a mixed-up component is visible.
-var dualSeeds = []float64{1, -2, 0.5}
-var hyperSeeds = [][3]float64{{1, 1, 0}, {2, 3, 5}, {-1, 0.5, -2}}
+var dualSeeds = []float64{1, -2, 0.5, 3, -0.125}
+var hyperSeeds = [][3]float64{{1, 1, 0}, {2, 3, 5}, {-1, 0.5, -2}, {0, 1, 0}, {1, 0, 3}, {0.25, -4, -0.5}}
 
 func genDualFuncs(g *vlib.G) {
 	for _, fn := range elemFns() {
@@ -392,15 +400,16 @@ type unitVec struct {
 	i, j, k float64
 }
 
-var unitVecs = []unitVec{{"i", 1, 0, 0}, {"j", 0, 1, 0}, {"-k", 0, 0, -1}, {"(1,2,2)/3", 1. / 3, 2. / 3, 2. / 3}, {"(2,-3,6)/7", 2. / 7, -3. / 7, 6. / 7}}
+var unitVecs = []unitVec{{"i", 1, 0, 0}, {"j", 0, 1, 0}, {"-k", 0, 0, -1}, {"(1,2,2)/3", 1. / 3, 2. / 3, 2. / 3}, {"(2,-3,6)/7", 2. / 7, -3. / 7, 6. / 7},
+	{"-i", -1, 0, 0}, {"(-4,0,3)/5", -0.8, 0, 0.6}, {"(1,-4,-8)/9", 1. / 9, -4. / 9, -8. / 9}, {"(0,0.6,0.8)", 0, 0.6, 0.8}}
 
 func fromPlane(z complex128, u unitVec) quat.Number {
 	return quat.Number{Real: real(z), Imag: imag(z) * u.i, Jmag: imag(z) * u.j, Kmag: imag(z) * u.k}
 }
 
 func genQuatFuncs(g *vlib.G) {
-	ws := []float64{-2, -0.5, 0, 0.75, 1.5}
-	vs := []float64{0.25, 1, 2.5}
+	ws := []float64{-2.25, -2, -1.5, -1, -0.5, -0.25, 0, 0.25, 0.75, 1, 1.5, 2}
+	vs := []float64{0.125, 0.25, 0.5, 1, 1.5, 2.5}
 	for _, fn := range quatFns() {
 		fn := fn
 		g.Case("quat "+fn.name, func(t *vlib.T) {
@@ -528,8 +537,10 @@ func dqClose(a, b dualquat.Number, tol float64) bool {
 }
 
 func genDualquatFuncs(g *vlib.G) {
-	reals := []quat.Number{{Real: 1.5}, {Real: 0.5, Imag: 1}, {Real: -0.5, Jmag: 0.75}, {Real: 1, Imag: 0.5, Jmag: -0.5, Kmag: 0.25}, {Imag: 1}, {Real: 2, Kmag: -1}}
-	duals := []quat.Number{{}, {Real: 1}, {Imag: 1}, {Jmag: 1}, {Real: 0.5, Imag: -1, Kmag: 0.5}}
+	reals := []quat.Number{{Real: 1.5}, {Real: 0.5, Imag: 1}, {Real: -0.5, Jmag: 0.75}, {Real: 1, Imag: 0.5, Jmag: -0.5, Kmag: 0.25}, {Imag: 1}, {Real: 2, Kmag: -1},
+		{Real: 0.25}, {Real: 1, Imag: 1, Jmag: 1, Kmag: 1}, {Real: -1, Jmag: 0.5, Kmag: 0.5}, {Real: 0.75, Imag: -1.5}, {Jmag: -1.25}, {Real: 1.25, Imag: 0.25, Kmag: -0.75}}
+	duals := []quat.Number{{}, {Real: 1}, {Imag: 1}, {Jmag: 1}, {Real: 0.5, Imag: -1, Kmag: 0.5},
+		{Kmag: -2}, {Real: -1.5}, {Real: 1, Imag: 1, Jmag: 1, Kmag: 1}, {Imag: 0.5, Jmag: -0.5}, {Real: 2, Kmag: 0.25}}
 	for ri, r := range reals {
 		for di, d := range duals {
 			x := dualquat.Number{Real: r, Dual: d}
@@ -593,8 +604,8 @@ func dcExpSeries(x dualcmplx.Number) dualcmplx.Number {
 }
 
 func genDualcmplxFuncs(g *vlib.G) {
-	reals := []complex128{1.5, 0.5 + 1i, -0.5 + 0.75i, 1 - 2i, 1i, 2, -1.5 - 0.5i, 0.25}
-	duals := []complex128{0, 1, 1i, 0.5 - 1i, -2 + 0.5i}
+	reals := []complex128{1.5, 0.5 + 1i, -0.5 + 0.75i, 1 - 2i, 1i, 2, -1.5 - 0.5i, 0.25, -1i, 1 + 1i, 0.75 - 0.25i, -0.25 + 2i, 3, 0.125 + 0.125i, -2 + 1i, 1.25 + 1.5i}
+	duals := []complex128{0, 1, 1i, 0.5 - 1i, -2 + 0.5i, -1, -1i, 3 + 2i, 0.25, -0.5 - 0.5i}
 	for _, r := range reals {
 		for _, d := range duals {
 			x := dualcmplx.Number{Real: r, Dual: d}
